@@ -41,6 +41,7 @@ def parse_doc(s):
 
 
 WHY = collections.Counter()
+IMPL = {}
 def hx(t):
     return binascii.hexlify(t.encode("utf-8")).decode()
 
@@ -289,6 +290,14 @@ def main():
             f = l.split("\t")
             if len(f) >= 3:
                 spec[f[0]] = f[2]
+        # the package itself on the same lines (third column of the comparison)
+        implf = os.path.join(tmp, prop + ".impl")
+        subprocess.run([args.xh, "run", sub, implf, "0", "4000", "0"], stdout=subprocess.DEVNULL, stderr=subprocess.DEVNULL)
+        if os.path.exists(implf):
+            for l in open(implf, encoding="utf-8", errors="replace"):
+                f = l.rstrip("\n").split("\t")
+                if len(f) >= 2:
+                    IMPL[f[0]] = f[1]
         # group by (doc, ns)
         groups = collections.defaultdict(list)
         for l in lines:
@@ -422,7 +431,7 @@ def main():
                             ok, why = False, "node kind probe: libxml2 %r, oracle %r" % (got, want)
                             break
                     elif what == "sv" or what == "kind":
-                        if got[0] != "str" or got[1] != want:
+                        if got[0] != "str" or re.sub(r"[\t\r\n]", " ", got[1]) != re.sub(r"[\t\r\n]", " ", want):
                             ok, why = False, "%s: libxml2 %r, oracle %r" % (what, got[1], want)
                             break
                     else:
@@ -443,6 +452,10 @@ def main():
                                 ok, why = False, "boolean: libxml2 %r, oracle %s" % (got, want)
                         elif want.startswith("str:"):
                             w = unhx(want[4:])
+                            # the shell prints TAB/CR/LF inside a string as blanks
+                            norm = lambda t: re.sub(r"[\t\r\n]", " ", t)
+                            if got[0] == "str" and norm(got[1]) == norm(w):
+                                got = ("str", w)
                             numeric = False
                             if got[0] == "str" and got[1] != w:
                                 try:
@@ -464,7 +477,7 @@ def main():
         print("%-32s %d" % (k, stats[k]))
     print("not-xml reasons:", dict(WHY))
     for b in bad[:40]:
-        print("DISAGREE", b)
+        print("DISAGREE", b, "| package:", IMPL.get(b[0], "?")[:120])
     return 1 if bad else 0
 
 
